@@ -114,6 +114,14 @@ func fatSpec(rng *PRNG) []byte {
 			}}
 			if j%2 == 1 {
 				op["requestBody"] = map[string]any{"content": map[string]any{"application/json": map[string]any{"schema": map[string]any{"$ref": "#/components/schemas/Union"}}, "application/xml": map[string]any{"schema": map[string]any{"type": "string"}}, "text/plain": map[string]any{"schema": map[string]any{"type": "string"}}, "application/octet-stream": map[string]any{"schema": map[string]any{"type": "string", "format": "binary"}}}}
+				if j == 3 {
+					// four flavours of one media type that differ only in a parameter, each with a schema of its own
+					vs := map[string]any{}
+					for v := 0; v < 4; v++ {
+						vs[fmt.Sprintf("application/json; version=%d", v+1)] = map[string]any{"schema": map[string]any{"$ref": "#/components/schemas/" + objNames[v]}}
+					}
+					op["requestBody"] = map[string]any{"content": vs}
+				}
 				op["security"] = []any{map[string]any{"keyA": []any{}, "keyB": []any{}, "jwt": []any{}, "keyQ": []any{}}, map[string]any{"oauth": []any{"a", "b"}, "jwt": []any{}}}
 			}
 			pi[m] = op
@@ -243,7 +251,13 @@ func facetDeterm(args []string) error {
 				os.MkdirAll(filepath.Join(w, "mod", "p"), 0o755)
 				os.WriteFile(filepath.Join(w, "mod", "p", siblingName), []byte(siblingText), 0o644)
 			}
-			res := runGoag(w, GenSpec{Name: "p", Spec: s.spec, Ext: s.ext, Client: client, Cors: i%2 == 0, DoNotEdit: true})
+			gs := GenSpec{Name: "p", Spec: s.spec, Ext: s.ext, Client: client, Cors: i%2 == 0, DoNotEdit: true}
+			if r%3 == 2 {
+				// this run goes into a directory that holds the output of an earlier run on the same
+				// (older) spec file with other options: the bytes are a function of THIS invocation only
+				gs.Prior = &GenSpec{Name: "alpha", Spec: s.spec, Client: client, DoNotEdit: false, BasePath: "/v2"}
+			}
+			res := runGoag(w, gs)
 			totalRuns++
 			if res.Outcome != "ok" && client && r == 0 {
 				// e.g. array header parameters are rejected for the client: retry without it
